@@ -249,7 +249,7 @@ def check(tier, seed):
     with open(out_path) as f:
         data = json.load(f)
     os.remove(out_path)
-    if data["supported_but_not_expanded"]:
+    if data["supported_but_not_expanded"] and not data["violations"]:
         # a declaration the generator believes supported is refused: C10/C11/C13 territory, not a C17 verdict
         s = data["supported_but_not_expanded_samples"][0]
         harness_error("the derive refuses a declaration the generator believes supported (%s) — unclaimed "
@@ -368,7 +368,7 @@ def replay(body, path):
         for inv in body["history"]:
             f.write("%d\t%s\t%s\t%s\t%s\n" % (inv["thread"], inv["strategy"], inv["hseed"],
                                              "-" if inv["decl"] is None else inv["decl"],
-                                             inv["src"].replace("\n", "\\n")))
+                                             inv["src"].replace("\\", "\\\\").replace("\n", "\\n")))
     p = subprocess.run([exe, "replay", "--file", hist], env=ENV, stdout=subprocess.PIPE, stderr=subprocess.PIPE,
                        text=True)
     os.remove(hist)
